@@ -87,7 +87,7 @@ def pod (j : Json) : Except String Pod := do
          required := ← listF (listOf kexpr) j "required", preferred := ← listF preferred j "preferred",
          tolerations := ← listF toleration j "tolerations", hostPorts := ← listF hostPort j "hostPorts",
          affinity := ← listF podAff j "affinity", spreads := ← listF spread j "spreads", daemon := ← boolD j "daemon" false,
-         ns := nsOrDefault (← strD j "namespace" ""), volumes := ← listF volume j "volumes" }
+         ns := nsOrDefault (← strD j "namespace" ""), volumes := ← listF volume j "volumes", owner := ← strD j "owner" "" }
 
 def node (j : Json) : Except String Node := do
   pure { name := ← strF j "name", pool := ← strF j "pool", it := ← strF j "it", zone := ← strF j "zone", ct := ← strF j "capacityType",
@@ -111,13 +111,33 @@ def pvc (j : Json) : Except String PVC := do
   pure { name := ← strF j "name", ns := nsOrDefault (← strD j "namespace" ""), volumeName := ← strD j "volumeName" "",
          storageClass := ← strD j "storageClass" "" }
 
+def listFault (j : Json) : Except String (String × Nat) := do
+  pure (← strF j "kind", ← natF j "nth")
+
+/-- a Service selector: absent / null = none (selects nothing), an object (possibly `{}`) = an equality selector -/
+def service (j : Json) : Except String Service := do
+  let sel ← match fldOpt j "selector" with
+    | none => pure none
+    | some .null => pure none
+    | some v => do pure (some (← labelsOf v))
+  pure { name := ← strF j "name", ns := nsOrDefault (← strD j "namespace" ""), selector := sel }
+
+def replicaSet (j : Json) : Except String ReplicaSet := do
+  let sel ← match fldOpt j "selector" with
+    | none => pure {}
+    | some .null => pure {}
+    | some v => labelSel v
+  pure { name := ← strF j "name", ns := nsOrDefault (← strD j "namespace" ""), selector := sel }
+
 def scenario (j : Json) : Except String Scenario := do
   pure { its := ← listF it j "its", pools := ← listF pool j "pools", nodes := ← listF node j "nodes",
          daemonsets := ← listF daemonSet j "daemonsets", pods := ← listF pod j "pods",
          ignorePreferences := ← boolD j "ignorePreferences" false, bestEffortMinValues := ← boolD j "bestEffortMinValues" false,
          parallelism := (← natO j "parallelism").getD 1, reservedCapacity := ← boolD j "reservedCapacity" false,
          namespaces := ← listF namespaceJ j "namespaces", storageClasses := ← listF storageClass j "storageClasses",
-         pvs := ← listF pv j "pvs", pvcs := ← listF pvc j "pvcs" }
+         pvs := ← listF pv j "pvs", pvcs := ← listF pvc j "pvcs",
+         listFaults := ← listF listFault j "listFaults", defaultSpreads := ← listF spread j "defaultSpreads",
+         services := ← listF service j "services", replicaSets := ← listF replicaSet j "replicaSets" }
 
 def snapReq (j : Json) : Except String Req := do
   pure { key := ← strF j "key", complement := ← boolF j "complement", values := ← listF asStr j "values",
